@@ -9,6 +9,8 @@ Every clause is an identity between polynomials (or a ground rational equality).
 from __future__ import annotations
 
 import time
+
+import numpy as np
 from fractions import Fraction
 
 from vt import alg, extract
@@ -325,6 +327,32 @@ def ob_eval_functions():
     return Verdict(DISCHARGED, backend="uninterpreted functions, concrete loop bounds", sub=n)
 
 
+def ob_accessors(et):
+    """the public accessors serve the tables: Get_N_pg, Get_dN_pg, Get_ddN_pg, Get_dddN_pg, Get_ddddN_pg (matrixType) == the tabulated functions _N ... _ddddN
+    evaluated at the integration points of that matrix type -- for every derivative order, whether or not the derivative vanishes for this element."""
+    from . import patches
+    from EasyFEA.FEM._utils import MatrixType
+    mesh = patches.two_element_mesh(et)
+    g = mesh.groupElem
+    n = 0
+    for mt in (MatrixType.rigi, MatrixType.mass):
+        pts = np.asarray(g.Get_gauss(mt).coord)
+        for k, (acc, tab) in enumerate((("Get_N_pg", "_N"), ("Get_dN_pg", "_dN"), ("Get_ddN_pg", "_ddN"), ("Get_dddN_pg", "_dddN"), ("Get_ddddN_pg", "_ddddN"))):
+            table = getattr(g, tab)()
+            got = getattr(g, acc)(mt)
+            if got is None:
+                raise Refuted(f"{et}.{acc}({mt}) returns None", signature=f"accessor:{et}:{acc}", replay=dict(confirmed=True))
+            got = np.asarray(got)
+            table = np.asarray(table, dtype=object)
+            want = np.array([[[float(table[i_, f_](*pts[p_])) for i_ in range(table.shape[0])] for f_ in range(table.shape[1])] for p_ in range(pts.shape[0])])
+            n += 1
+            if got.shape != want.shape or not np.allclose(got, want, rtol=1e-13, atol=1e-13):
+                bad = float(np.abs(got - want).max()) if got.shape == want.shape else None
+                raise Refuted(f"{et}.{acc}({mt.name if hasattr(mt, 'name') else mt}) differs from the table {tab} evaluated at the integration points (shape {got.shape} vs {want.shape}, max difference {bad})",
+                              cex=dict(elemType=et, accessor=acc, matrixType=str(mt)), signature=f"accessor:{et}:{acc}", replay=dict(confirmed=True, max_diff=bad))
+    return Verdict(DISCHARGED, backend="native run: accessors vs the tables evaluated point by point", sub=n)
+
+
 def build(tier, seed):
     obs = []
     funcs = {}
@@ -343,6 +371,9 @@ def build(tier, seed):
                 funcs[f"{et}.{t}"] = extract.get(path, f"{et}.{t}").describe()
             except Unsupported:
                 pass
+    for et in common.LAGRANGE:
+        obs.append(Ob(f"C06.{et}.accessors", ob_accessors, (et,), "B", tuple(f"{common.GROUP_PATH}::_GroupElem.{a}" for a in ("Get_N_pg", "Get_dN_pg", "Get_ddN_pg", "Get_dddN_pg", "Get_ddddN_pg")),
+                      bound="integration points of the stiffness and mass rules", clause="Get_d^kN_pg(matrixType) == table d^kN evaluated at the integration points, k = 0..4"))
     bpath = common.elem_file(common.HERMITE[0])
     for et in common.HERMITE:
         fk = tuple(f"{bpath}::{et}.{t}" for t in HTABLES)
